@@ -3,6 +3,9 @@ import SoxrModel.Vr.Model
     the check diffs these lines with what `harness/vr/trace.c` printed from the real code (integers only; the two
     `double` fields travel as IEEE bit patterns).
 
+    `gshl=` / `gsw=` in the answer to `vr.proc` / `vr.flush` are ghost outputs of the model (stage switches that shift a
+    negative value left: where UBSan must fire, F14; stage switches taken) — the check strips them before the diff.
+
     Ops: `vr.create <bits>` · `vr.ratio <bits> <slew>` · `vr.proc <ilen> <olen>` · `vr.flush <olen>` ·
          `api.set valid= sticky= nch= inited= vr= cur= r= slew=`
 
@@ -57,7 +60,7 @@ structure DSt where
 
 def procLine (p : PRes UInt64) (olen : Nat) : DSt × String :=
   let o := output p.st olen
-  ({ st := o.1 }, s!"R od={o.2} mis={p.nmis} " ++ stateLine o.1)
+  ({ st := o.1 }, s!"R od={o.2} mis={p.nmis} neg={p.nneg} gshl={p.nshl} gsw={p.nsw} " ++ stateLine o.1)
 
 def step (d : DSt) (line : String) : DSt × Option String :=
   let toks := (line.trimAscii.toString.splitOn " ").filter (· ≠ "")
